@@ -63,3 +63,17 @@ Definition run_batch (res : list (list float * (nat * nat * nat))) (expected : l
    map (fun r => fst (fst (snd r))) res,
    map (fun r => snd (fst (snd r))) res,
    map (fun r => snd (snd r)) res).
+
+(* Kepler part of n >= 1 WHFast steps with safe_mode = 0 followed by a synchronisation, for one body on which nothing
+   else acts (test particle in democratic-heliocentric / Jacobi coordinates, star at rest at the origin, G = 1: the
+   coordinate transformations, the interaction and jump steps and the centre-of-mass drift are bit-exact identities):
+   drift dt/2, (n-1) merged drifts dt, the synchronisation drift whfast_sync_drift dt; then, for every later complete
+   step of length d (taken by integrate() after the synchronisation), two drifts d/2. *)
+Definition kstepF (p : list float) (M d : float) : list float := fst (kepF p M d).
+Fixpoint iterF (n : nat) (p : list float) (M d : float) : list float :=
+  match n with O => p | S k => iterF k (kstepF p M d) M d end.
+Definition unsyncF (p : list float) (M dt : float) (n : nat) (later : list float) : list float :=
+  let p1 := kstepF p M (dt / 2) in
+  let p2 := iterF (Nat.pred n) p1 M dt in
+  let p3 := kstepF p2 M (whfast_sync_drift FNum false dt) in
+  fold_left (fun q d => kstepF (kstepF q M (d / 2)) M (d / 2)) later p3.
